@@ -112,6 +112,7 @@ def main(argv=None):
     ap.add_argument("--tier", default=os.environ.get("VERIF_TIER", "quick"))
     ap.add_argument("--replay")
     ap.add_argument("-v", "--verbose", action="store_true")
+    ap.add_argument("--update-ledger", action="store_true", help="record the unit source hashes of a green run")
     a = ap.parse_args(argv)
     seed = int(os.environ.get("VERIF_SEED", "0"))
     sys.path.insert(0, ROOT)
